@@ -917,6 +917,116 @@ theorem c16_export_partial_witness :
     apiExport true (.ok [((8, 2), (1, 0))] 1 0 true false [⟨(8, 2), 100, 5⟩]) = .stream [((8, 2), 5)] true := by
   refine ⟨by decide, by decide, by decide⟩
 
+/-- with `ShouldFetch` a successful `Search` hands back exactly one document per returned ID (also for the empty result) -/
+theorem c16_fetched_length (hot cold : List (Nat × ShardRes)) (offset size : Nat) (rev : Bool) (hint : Nat)
+    (order : List Nat) (behav : Nat → Option (List Ev))
+    (ids : List (ProxySearch.ID × Src)) (t e : Nat) (p c : Bool) (docs : List Doc)
+    (h : searchAndFetch hot cold offset size rev hint true order behav = .ok ids t e p c docs) :
+    docs.length = ids.length := by
+  rcases c16_response_aligned hot cold offset size rev hint true order behav ids t e p c docs h with h0 | ⟨hl, _⟩
+  · subst h0
+    unfold searchAndFetch at h
+    cases hs : search hot cold offset size rev with
+    | err k => rw [hs] at h; cases h
+    | panic => rw [hs] at h; cases h
+    | ok ids' t' e' p' c' =>
+      rw [hs] at h
+      simp only at h
+      split at h
+      · have hf := c16_fetch_aligned (ids'.map (toIDS c' hint)) order behav
+        cases hfd : fetchDocsStream (ids'.map (toIDS c' hint)) order behav with
+        | none => rw [hfd] at h; cases h
+        | some r =>
+          rw [hfd] at h hf
+          cases r with
+          | panic => cases h
+          | nofuel => cases h
+          | val out =>
+            simp only at h hf
+            injection h with h1 h2 h3 h4 h5 h6
+            subst h1 h6
+            have h7 := hf.1
+            simp only [List.length_map, List.length_nil] at h7
+            rw [List.length_nil]; omega
+      · rename_i hne
+        injection h with h1 _ _ _ _ _
+        subst h1
+        cases ids' with
+        | nil => rfl
+        | cons a l => simp at hne
+  · exact hl
+
+open SV.ProxyApi in
+/-- **C16 (an export that ends OK lists every returned ID).**  `Export` hands `doSearch` the export context itself
+(`usesExportCtx = true`; the obligation `c16_x_export_search_ctx` ties this to the source), so whenever the proxy's
+`SearchTimeout` elapses during the streaming phase (`searchTimeoutAfter`, any value) the document stream is not cut:
+a stream that ends with status OK carries exactly one item per ID `Search` returned - never a silent prefix. -/
+theorem c16_export_lists_every_id (b : Bool) (hot cold : List (Nat × ShardRes)) (offset size : Nat) (hint : Nat)
+    (order : List Nat) (behav : Nat → Option (List Ev)) (searchTimeoutAfter : Option Nat)
+    (sent : List (ProxySearch.ID × Nat)) (e : Bool)
+    (h : apiExportCtx true b hot cold offset size hint order behav searchTimeoutAfter = .stream sent e) :
+    ∃ ids t n p c docs, searchAndFetch hot cold offset size false hint true order behav = .ok ids t n p c docs ∧
+      sent.map (·.1) = ids.map (·.1) := by
+  have h' : apiExport b (searchAndFetch hot cold offset size false hint true order behav) = .stream sent e := by
+    simpa [apiExportCtx, exportCancel, searchAndFetchC] using h
+  obtain ⟨ids, t, n, p, c, docs, hf, hsent, hal⟩ := c16_export_aligned b hot cold offset size hint order behav sent e h'
+  refine ⟨ids, t, n, p, c, docs, hf, ?_⟩
+  have hlen := c16_fetched_length hot cold offset size false hint order behav ids t n p c docs hf
+  rcases hal with h0 | ⟨hl, hp⟩
+  · subst h0
+    have : ids = [] := by cases ids with
+      | nil => rfl
+      | cons a l => simp at hlen
+    subst this; subst hsent; rfl
+  · apply List.ext_getElem?
+    intro i
+    rw [List.getElem?_map, List.getElem?_map]
+    cases hs : sent[i]? with
+    | none =>
+      have : sent.length ≤ i := List.getElem?_eq_none_iff.mp hs
+      rw [List.getElem?_eq_none_iff.mpr (by omega)]; rfl
+    | some d =>
+      have hi : i < ids.length := by
+        have := (List.getElem?_eq_some_iff.mp hs).1; omega
+      have hx : ids[i]? = some ids[i] := List.getElem?_eq_getElem hi
+      rw [hx]
+      simp only [Option.map_some, Option.some.injEq]
+      exact (hp i ids[i] d hx hs).1
+
+open SV.ProxyApi in
+/-- the rejected variant (`usesExportCtx = false`: the search phase - and with it the lazily read document stream - under a
+child context bounded by `SearchTimeout`): two IDs returned, the timeout elapses after the first document, the stream
+ends with status OK after that single document - an incomplete export presented as complete -/
+theorem c16_export_search_ctx_witness :
+    apiExportCtx false true [(0, searchShard [.resp .none [(9, 1), (5, 1)] 2 0])] [] 0 5 0 [0]
+        (fun _ => some [.doc (9, 1) 3, .doc (5, 1) 4]) (some 1) = .stream [((9, 1), 3)] false ∧
+    apiExportCtx true true [(0, searchShard [.resp .none [(9, 1), (5, 1)] 2 0])] [] 0 5 0 [0]
+        (fun _ => some [.doc (9, 1) 3, .doc (5, 1) 4]) (some 1) = .stream [((9, 1), 3), ((5, 1), 4)] false := by
+  refine ⟨by decide, by decide⟩
+
+open SV.ProxyApi in
+/-- **C16 (the stores are asked for the whole page).**  The request a store receives carries the API request's `Size`
+and `Offset` unchanged (`c16_x_store_request_unchanged`), so the store's limit is `offset + size` - the limit the link
+hypothesis `hans` of `c16_c05_compose` / `c16_e2e_spec` demands of every answering shard -, whatever
+`conf.MaxRequestedDocuments` is. -/
+theorem c16_store_request_limit (offset size : Nat) :
+    (storeRequest offset size).limit = offset + size ∧ (storeRequest offset size).size = size ∧
+      (storeRequest offset size).offset = offset := by
+  simp [storeRequest, StoreReq.limit, Nat.add_comm]
+
+open SV.ProxyApi in
+/-- honest stores (each answers with its newest `limit` IDs) asked with the real request: the page is the top of the merged
+truth; asked with a per-store clamp (cap 2, page of 4): shard 0's surplus never arrives and older IDs of shard 1 fill the
+page - every shard answered, nothing is flagged, the result has a hole -/
+theorem c16_clamp_witness :
+    let a : List ProxySearch.ID := [(9, 1), (8, 1), (7, 1), (6, 1)]
+    let b : List ProxySearch.ID := [(5, 2), (4, 2), (3, 2)]
+    search (indexed 0 ([[storeAnswer a (storeRequest 0 4)], [storeAnswer b (storeRequest 0 4)]].map searchShard)) [] 0 4 false
+      = .ok [((9, 1), (0, 0)), ((8, 1), (0, 0)), ((7, 1), (0, 0)), ((6, 1), (0, 0))] 7 0 false false ∧
+    search (indexed 0 ([[storeAnswer a (storeRequestClamped 2 0 4)], [storeAnswer b (storeRequestClamped 2 0 4)]].map searchShard)) [] 0 4 false
+      = .ok [((9, 1), (0, 0)), ((8, 1), (0, 0)), ((5, 2), (1, 0)), ((4, 2), (1, 0))] 7 0 false false := by
+  refine ⟨by decide, by decide⟩
+
 open SV.ProxyApi in
 /-- **C16 (Fetch).**  `Fetch` (every ID asked from every store, runs of equal IDs collapsed, `Id` taken from the
 document): the handler fails / panics, or sends one item per run of equal requested IDs - exactly the request, in
@@ -1057,6 +1167,18 @@ theorem c16_x_pairing :
 /-- `Export` closes the stream of a partial result with a status error (what `c16_export_honest` is about).
 FAILS on a tree without fixes/C16-export-partial.patch - see `c16_export_partial_witness`. -/
 theorem c16_x_export_reports_partial : exportReportsPartial = true := by decide
+
+/-- `Export` derives exactly one context - the export context, bounded by `ExportTimeout` - and hands that one to
+`doSearch`: the lazily read document stream is not subject to the (shorter) `SearchTimeout` (`c16_export_lists_every_id`) -/
+theorem c16_x_export_search_ctx :
+    exportSearchCtx = ["ctx, cancel := context.WithTimeout(stream.Context(), g.config.ExportTimeout)", "g.doSearch(ctx, ...)"] := by
+  decide
+
+/-- `GetAPISearchRequest` is a single `return` of a literal whose `Size` / `Offset` / `Order` are the request's own:
+nothing is clamped or dropped on the way to the stores (`ProxyApi.storeRequest`, `c16_store_request_limit`) -/
+theorem c16_x_store_request_unchanged :
+    storeRequestFields = ["statements=1", "Size: int64(sr.Size)", "Offset: int64(sr.Offset)",
+      "Order: storeapi.MustProtoOrder(sr.Order)"] := by decide
 
 /-! ## Non-vacuity -/
 
